@@ -1597,6 +1597,10 @@ class HealSparseMap(object):
             aux[np.isnan(aux)] = sentinel_out
             sparse_map_out = aux
 
+        # The overflow block stands for every pixel outside the coverage: it must stay
+        # invalid whatever the reduction makes of an all-invalid group (sum -> 0, prod -> 1).
+        sparse_map_out[0: nfine_per_cov] = sentinel_out
+
         # The coverage index map is now offset, we have to build a new one
         # Note that we need to keep the same order of the coverage map
         new_cov_map = HealSparseCoverage.make_from_pixels(self.nside_coverage,
